@@ -114,7 +114,7 @@ Section OneSpan.
   Qed.
 
   Lemma next_R1 pos v p : a <= pos -> pos < b -> at_ src pos <> 0 ->
-    next (R1 pos v p) = if pos + 1 <? b then (true, R1 (pos + 1) v pos) else (false, Rend (pos + 1) v pos).
+    next (R1 pos v p) = if pos + 1 <? b then (true, R1 (pos + 1) (if at_ src (pos + 1) =? 0 then 0 else v) pos) else (false, Rend (pos + 1) v pos).
   Proof.
     intros H1 H2 H4. unfold next. rewrite (curNode_R1 pos v p H1 H2).
     cbn [r_src r_pos r_vpos r_spans R1 ikind iend mkI tl nextSpan].
@@ -216,12 +216,12 @@ Section Loop.
       destruct (ws (at_ src pos)) eqn:Ew.
       + rewrite (collapse_ws_cons _ _ Ew).
         destruct (Z.ltb_spec (pos + 1) b) as [Lb|Lb]; cbn [negb].
-        * rewrite (tskip_single f IHf (S f) (pos + 1) v pos (acc ++ [32])) by (try assumption; lia).
+        * rewrite (tskip_single f IHf (S f) (pos + 1) _ pos (acc ++ [32])) by (try assumption; lia).
           rewrite <- app_assoc. reflexivity.
         * rewrite (sub_empty src (pos + 1) e) by lia. cbn [dropWhileB]. rewrite collapse_nil. reflexivity.
       + rewrite (collapse_nws_cons _ _ Ew).
         destruct (Z.ltb_spec (pos + 1) b) as [Lb|Lb]; cbn [negb].
-        * rewrite (IHf (pos + 1) v pos (acc ++ [at_ src pos])) by (try assumption; lia).
+        * rewrite (IHf (pos + 1) _ pos (acc ++ [at_ src pos])) by (try assumption; lia).
           rewrite <- app_assoc. reflexivity.
         * rewrite (sub_empty src (pos + 1) e) by lia. rewrite collapse_nil. reflexivity.
   Qed.
